@@ -9,7 +9,7 @@ from symx.vloop import Script
 from .common import MC, P, Q, TTL_FOREVER, RecTransport, loop_clean, new_loop
 
 PROPERTY = "C14"
-BUDGET_S = {"quick": 900, "thorough": 3000}
+BUDGET_S = {"quick": 900, "thorough": 7200}
 STUBS = ["VirtualLoop (symbolic ticks; API calls injected at solver-chosen instants/iterations, also at the refresh instants)", "struct/bytes lowering"]
 ASSUMPTIONS = [
     "histories of at most K calls from a fresh, not yet started subscriber; no duplicate subscribe of the same eventgroup to the same server; start/stop well formed",
